@@ -64,6 +64,7 @@ type Result struct {
 	Detail    string   `json:"detail,omitempty"`
 	Site      string   `json:"site,omitempty"` // function in the repository where it panicked / blocked
 	Alloc     uint64   `json:"alloc"`
+	Nanos     int64    `json:"ns"`
 	Stack     string   `json:"stack,omitempty"`
 	Trace     []tevent `json:"trace,omitempty"`
 	Delivered string   `json:"delivered,omitempty"`
@@ -245,11 +246,15 @@ func execRead(c *Case, res *Result) {
 	}
 }
 
+var stackBuf = make([]byte, 1<<20)
+
 func allStacks() string {
-	buf := make([]byte, 1<<20)
-	n := runtime.Stack(buf, true)
-	return string(buf[:n])
+	n := runtime.Stack(stackBuf, true)
+	return string(stackBuf[:n])
 }
+
+// idleGoroutines is the number of goroutines of an idle child (set at start-up).
+var idleGoroutines = 0
 
 // repoGoroutines returns the stacks of goroutines that are executing repository code
 // (other than the harness itself).
@@ -275,14 +280,15 @@ func runCase(c *Case) (res Result) {
 	res.ID = c.ID
 	res.Outcome = "ok"
 	// baseline: no repository goroutine may be alive before the case starts
-	if g := repoGoroutines(); len(g) > 0 {
+	t0 := time.Now()
+	if runtime.NumGoroutine() > idleGoroutines {
 		dl := time.Now().Add(leakWait)
-		for len(g) > 0 && time.Now().Before(dl) {
-			time.Sleep(time.Millisecond)
-			g = repoGoroutines()
+		for runtime.NumGoroutine() > idleGoroutines && len(repoGoroutines()) > 0 && time.Now().Before(dl) {
+			time.Sleep(200 * time.Microsecond)
 		}
 	}
 	base := runtime.NumGoroutine()
+	defer func() { res.Nanos = time.Since(t0).Nanoseconds() }()
 	alloc0 := heapAllocs()
 	done := make(chan Result, 1)
 	go func() {
@@ -335,9 +341,13 @@ func runCase(c *Case) (res Result) {
 	}
 	// goroutine-leak check: everything the reader started must be gone after Close / Pull(true)
 	dl := time.Now().Add(leakWait)
-	for {
+	for spin := 0; ; spin++ {
 		if runtime.NumGoroutine() <= base {
 			break
+		}
+		if spin < 20 {
+			runtime.Gosched()
+			continue
 		}
 		g := repoGoroutines()
 		if len(g) == 0 {
@@ -390,6 +400,7 @@ func childMain(args []string) {
 	sc := bufio.NewScanner(f)
 	sc.Buffer(make([]byte, 1<<20), 64<<20)
 	installHook()
+	idleGoroutines = runtime.NumGoroutine()
 	for sc.Scan() {
 		var c Case
 		if err := json.Unmarshal(sc.Bytes(), &c); err != nil {
